@@ -148,10 +148,10 @@ theorem C18_rearm_supersedes (cfg : Cfg) (ops : List Op) (tk n : Nat) (r : Req)
       | some id =>
         simp only [timerCancel_some, timerStart, setTimeout, setHandle, List.map_map]
         exact List.mem_map.2 ⟨r, hr, by simp⟩
-    · cases hh : r.handle <;> simp [timerCancel]
+    · cases hh : r.handle <;> rfl
   · rw [hs']
     refine ⟨_, List.mem_append.2 (.inr (List.mem_singleton.2 rfl)), ?_, rfl, rfl, rfl⟩
-    cases hh : r.handle <;> simp [timerCancel]
+    cases hh : r.handle <;> rfl
 
 /-- **No error reaches the loop's exception handler**: in every history without a generator wrap no timer task
 raises (`loopErr` is `KeyError` in `_timeout_search_request`). -/
